@@ -1,7 +1,7 @@
 (* C13 — property theorems only: each closed by [exact] and followed by Print Assumptions. *)
 From Coq Require Import List ZArith Bool.
 From AV Require Import Model.C13_Num Model.C13_Decimal Model.C13_Cast Model.C13_Text.
-From AV Require Import Proofs.C13_Col Proofs.C13_Pow Proofs.C13_Rescale Proofs.C13_Int Proofs.C13_TextInt.
+From AV Require Import Proofs.C13_Col Proofs.C13_Pow Proofs.C13_Rescale Proofs.C13_Int Proofs.C13_TextInt Proofs.C13_TextDec Proofs.C13_TextDecM.
 Import ListNotations.
 Local Open Scope Z_scope.
 
@@ -145,3 +145,22 @@ Theorem int_text_roundtrip : forall bits sg v, 1 <= bits -> fits bits sg v = tru
   parse_int bits sg (fmt_int v) = Some v.
 Proof. exact int_text_roundtrip_M. Qed.
 Print Assumptions int_text_roundtrip.
+
+(* decimal text, the real parser: for every decimal type (w, p, s) with a non-negative scale and every
+   value within the declared precision, the Utf8 -> Decimal cast (parse_string_to_decimal_native:
+   trim, sign, 19-digit u64 chunks folded with checked multiply / add, rounding digit, then the
+   precision check) applied to the text the Decimal -> Utf8 cast produces (format_decimal_str: sign,
+   leading "0.", zero padding) is defined and returns the value *)
+Theorem decimal_text_roundtrip : forall w p s v,
+  In w [32; 64; 128; 256] -> 1 <= p <= dec_maxp w -> 0 <= s <= dec_maxs w -> Z.abs v < 10 ^ p ->
+  exists f, cast_str_dec w p s = Some f /\ f (fmt_dec v p s) = Some v.
+Proof. exact decimal_text_roundtrip_M. Qed.
+Print Assumptions decimal_text_roundtrip.
+
+(* the same for the specification reader of decimal literals (sign, digits, one point, round half
+   away from zero) that the correspondence run compares the real parser with on arbitrary strings *)
+Theorem decimal_text_roundtrip_spec : forall w p s v,
+  In w [32; 64; 128; 256] -> 1 <= p <= dec_maxp w -> 0 <= s -> Z.abs v < 10 ^ p ->
+  parse_dec_spec w p s (fmt_dec v p s) = Some v.
+Proof. exact C13_TextDec.decimal_text_roundtrip_spec. Qed.
+Print Assumptions decimal_text_roundtrip_spec.
